@@ -50,7 +50,7 @@ func checkC09(c *Ctx) {
 		guarded = append(guarded, k.fBackoff)
 	}
 	for _, f := range guarded {
-		specs = append(specs, GuardSpec{Field: FieldID{k.tkey, f}, Lock: k.lockID, CallNeedsW: false})
+		specs = append(specs, GuardSpec{Field: k.fieldID(f), Lock: k.lockID, CallNeedsW: false})
 	}
 	// L2
 	wg := NewWaitGraph(p, e, k.fns)
@@ -61,7 +61,7 @@ func checkC09(c *Ctx) {
 	k.waitUnderLockTransitive()
 
 	// flow A
-	a := &c09Acct{k: k, loads: map[*ssa.UnOp]int{}, find: map[string]*c09Finding{}, seenCase: map[string]bool{}, diag: map[string]string{}, visited: map[ssa.Instruction]bool{}, capCmp: map[string]string{}, lockAt: map[ssa.Instruction]Mode{}}
+	a := &c09Acct{k: k, loads: map[*ssa.UnOp]int{}, find: map[string]*c09Finding{}, seenCase: map[string]bool{}, diag: map[string]string{}, visited: map[ssa.Instruction]bool{}, capCmp: map[string]string{}, lockAt: map[ssa.Instruction]Mode{}, goDone: map[string]bool{}}
 	var sites []ssa.Instruction // pending stores, go statements that must be explored
 	for _, fn := range k.fns {
 		if k.ctorOnly[fn] {
@@ -71,13 +71,15 @@ func checkC09(c *Ctx) {
 			switch x := in.(type) {
 			case *ssa.UnOp:
 				if x.Op == token.MUL {
-					if f, ok := k.addrField(x.X); ok && f == k.fPend {
+					if f, ok := k.addrFieldR(x.X); ok && f == k.fPend {
 						a.loads[x] = len(a.loads)
 					}
 				}
 			case *ssa.Store:
-				if f, ok := k.addrField(x.Addr); ok && f == k.fPend {
-					sites = append(sites, in)
+				for _, ss := range k.stateStores(in) {
+					if ss.field == k.fPend {
+						sites = append(sites, in)
+					}
 				}
 			case *ssa.Go:
 				sites = append(sites, in)
@@ -97,7 +99,6 @@ func checkC09(c *Ctx) {
 		}
 		if g.Body != nil && k.follow(g.Body) && !seenBody[g.Body] {
 			seenBody[g.Body] = true
-			a.run(g.Body, "go")
 		}
 	}
 	// entry points other than Run/Add/Close (exported methods such as WithTicker)
@@ -141,8 +142,8 @@ func checkC09(c *Ctx) {
 		switch {
 		case len(a.capCmp) == 0 && !k.fieldReadInLoop(k.fCap):
 			r.Violation("C09.L7-handlers", k.fname(k.run)+" cap", p.Pos(k.run.Pos()), "the pending-events cap is never consulted by the run loop: reaching the pending-events cap no longer fires immediately")
-		case a.capCmp[">"] != "" || a.capCmp["<"] != "":
-			r.Violation("C09.L7-handlers", k.fname(k.run)+" cap", a.capCmp[">"]+a.capCmp["<"], "the pending count is compared with the cap strictly (>), so reaching the pending-events cap no longer fires immediately (it fires one Add late)")
+		case a.capCmp[">"] != "" && a.capCmp[">="] == "":
+			r.Violation("C09.L7-handlers", k.fname(k.run)+" cap", a.capCmp[">"], "the pending count is compared with the cap strictly (>), so reaching the pending-events cap no longer fires immediately (it fires one Add late)")
 		default:
 			r.Undecide("C09: the comparison of the pending count with the cap was not recognised")
 		}
@@ -167,7 +168,7 @@ func checkC09(c *Ctx) {
 		bodies = append(bodies, b)
 	}
 	sort.Slice(bodies, func(i, j int) bool { return k.fname(bodies[i]) < k.fname(bodies[j]) })
-	CheckShutdownCases(p, e, r, "C09.L5-shutdown", bodies, []string{"field:" + k.tkey + "." + k.fCloseCh}, false)
+	CheckShutdownCases(p, e, r, "C09.L5-shutdown", bodies, []string{"field:" + k.lockKey(k.fCloseCh)}, false)
 
 	k.timerRearm()
 	k.backoffBounded()
@@ -193,9 +194,9 @@ func (k *c09) guardedBy(a *c09Acct, specs []GuardSpec, guarded []string) {
 		if o.Status == StViolation {
 			parts := strings.SplitN(o.Construct, " -> ", 2)
 			fn := byName[parts[0]]
-			okAll, n := fn != nil && len(parts) == 2, 0
+			okAll, n, nSeen := fn != nil && len(parts) == 2, 0, 0
 			if okAll {
-				for _, acc := range FieldAccesses(fn, func(id FieldID) bool { return id.Type == k.tkey && id.String() == parts[1] }) {
+				for _, acc := range FieldAccesses(fn, func(id FieldID) bool { _, ok := k.stateTypes[id.Type]; return ok && id.String() == parts[1] }) {
 					if acc.Fresh {
 						continue
 					}
@@ -205,6 +206,9 @@ func (k *c09) guardedBy(a *c09Acct, specs []GuardSpec, guarded []string) {
 						need = ModeW
 					}
 					got, seen := a.lockAt[acc.Instr]
+					if seen {
+						nSeen++
+					}
 					if !seen || got < need {
 						okAll = false
 					}
@@ -212,6 +216,12 @@ func (k *c09) guardedBy(a *c09Acct, specs []GuardSpec, guarded []string) {
 			}
 			if okAll && n > 0 {
 				r.OK(o.Rule, o.Construct, o.Pos, fmt.Sprintf("%d accesses under %s in every explored calling context (calls through function values followed)", n, shortID(k.lockID)))
+				continue
+			}
+			if fn != nil && n > 0 && nSeen == 0 {
+				// never reached by the exploration: it only runs through function values that could not be followed
+				r.Undecide("C09.L1-guard: the accesses of %s run in a context that was not followed (the shared lockset rule sees no lock)", o.Construct)
+				r.OK(o.Rule, o.Construct, o.Pos, "not decided: context not followed")
 				continue
 			}
 			r.Violation(o.Rule, o.Construct, o.Pos, o.Message, o.Witness...)
@@ -245,7 +255,7 @@ func c09DescribeInstr(in ssa.Instruction) string {
 // windowTestExists: some function reachable from Run tests the window flag or the timer for nil.
 func (k *c09) windowTestExists() bool {
 	hit := false
-	WalkCalls(k.run, nil, nil, k.follow, false, func(pf *PathFlow, in ssa.Instruction) {
+	WalkCalls(k.flow(), k.run, false, func(pf *PathFlow, in ssa.Instruction) {
 		if v, ok := in.(ssa.Value); ok {
 			if f, ok := k.flagLoad(v); ok && f == k.fFlag && k.fFlag != "" {
 				hit = true
@@ -262,9 +272,9 @@ func (k *c09) windowTestExists() bool {
 
 func (k *c09) fieldReadInLoop(field string) bool {
 	hit := false
-	WalkCalls(k.run, nil, nil, k.follow, false, func(pf *PathFlow, in ssa.Instruction) {
+	WalkCalls(k.flow(), k.run, false, func(pf *PathFlow, in ssa.Instruction) {
 		if u, ok := in.(*ssa.UnOp); ok && u.Op == token.MUL {
-			if f, ok := k.addrField(u.X); ok && f == field {
+			if f, ok := k.addrFieldR(u.X); ok && f == field {
 				hit = true
 			}
 		}
@@ -275,7 +285,7 @@ func (k *c09) fieldReadInLoop(field string) bool {
 // tokenSendBlocking: the token is handed over with a blocking operation (a
 // select with a default case could drop it).
 func (k *c09) tokenSendBlocking() {
-	WalkCalls(k.add, nil, nil, k.follow, true, func(pf *PathFlow, in ssa.Instruction) {
+	WalkCalls(k.flow(), k.add, true, func(pf *PathFlow, in ssa.Instruction) {
 		sel, ok := in.(*ssa.Select)
 		if !ok {
 			return
@@ -336,7 +346,7 @@ func (k *c09) signalOncePerGoroutine() {
 func (k *c09) waitUnderLockTransitive() {
 	reaches := func(root *ssa.Function, pred func(ci ssa.CallInstruction) bool) bool {
 		hit := false
-		WalkCalls(root, nil, nil, k.follow, false, func(pf *PathFlow, in ssa.Instruction) {
+		WalkCalls(k.flow(), root, false, func(pf *PathFlow, in ssa.Instruction) {
 			if ci, ok := in.(ssa.CallInstruction); ok && pred(ci) {
 				hit = true
 			}
